@@ -1396,6 +1396,10 @@ func (p *Parser) parseFormatStringOperator() (token.Token, string, string, error
 
 	formatted, err := p.fonts.FormatText(textToken.Literal, maxLineLength, cursorOverlapWidth, fontID, numLines)
 	if err != nil && p.enableEnvironmentErrors {
+		if fontIdToken.Type == "" {
+			// The font id did not come from the source text (default or -f option).
+			fontIdToken = textToken
+		}
 		return token.Token{}, "", "", NewParseError(fontIdToken, err.Error())
 	}
 	return textToken, formatted, stringType, nil
